@@ -49,6 +49,18 @@ pub struct SimModel<T: Sc> {
     pub x: DVector<T>,
     pub alpha: DVector<T>,
     pub ctl: Arc<Ctl>,
+    /// C06 twin: row i of every matrix this model returns is multiplied by row_scale[i]
+    pub row_scale: Option<Arc<Vec<T>>>,
+}
+
+fn scale_rows<T: Sc>(m: &mut DMatrix<T>, s: &Option<Arc<Vec<T>>>) {
+    if let Some(s) = s {
+        for j in 0..m.ncols() {
+            for i in 0..m.nrows().min(s.len()) {
+                m[(i, j)] = s[i] * m[(i, j)];
+            }
+        }
+    }
 }
 
 impl<T: Sc> SimModel<T> {
@@ -58,6 +70,7 @@ impl<T: Sc> SimModel<T> {
             x,
             alpha,
             ctl,
+            row_scale: None,
         }
     }
 }
@@ -122,7 +135,11 @@ impl<T: Sc> SeparableNonlinearModel for SimModel<T> {
                 Ok(m)
             }
             Some(_) => Err(SimError("eval".into())),
-            None => Ok(refmath::phi(&self.spec, &self.x, self.alpha.as_slice())),
+            None => {
+                let mut m = refmath::phi(&self.spec, &self.x, self.alpha.as_slice());
+                scale_rows(&mut m, &self.row_scale);
+                Ok(m)
+            }
         };
         self.ctl.sched_point();
         out
@@ -144,7 +161,11 @@ impl<T: Sc> SeparableNonlinearModel for SimModel<T> {
                 Ok(m)
             }
             Some(_) => Err(SimError(format!("eval_partial_deriv({k})"))),
-            None => Ok(refmath::dphi(&self.spec, k, &self.x, self.alpha.as_slice())),
+            None => {
+                let mut m = refmath::dphi(&self.spec, k, &self.x, self.alpha.as_slice());
+                scale_rows(&mut m, &self.row_scale);
+                Ok(m)
+            }
         };
         self.ctl.sched_point();
         out
@@ -173,6 +194,7 @@ fn closure_body<T: Sc>(
     what: What,
     x: &DVector<T>,
     p: &[T],
+    row_scale: &Option<Arc<Vec<T>>>,
 ) -> DVector<T> {
     ctl.sched_point();
     trace(&format!("{kind:?}"), p);
@@ -183,9 +205,13 @@ fn closure_body<T: Sc>(
             len,
             (0..len).map(|i| {
                 let xi = if n == 0 { T::of(0.0) } else { x[i % n] };
-                match what {
+                let v = match what {
                     What::F => refmath::f_eval(fam, xi, p),
                     What::D(l) => refmath::f_deriv(fam, xi, p, l),
+                };
+                match row_scale {
+                    Some(s) if i < s.len() => s[i] * v,
+                    _ => v,
                 }
             }),
         )
@@ -214,6 +240,7 @@ pub fn build_separable<T: Sc>(
     x: DVector<T>,
     alpha0: Vec<T>,
     ctl: Arc<Ctl>,
+    row_scale: Option<Arc<Vec<T>>>,
 ) -> Result<SeparableModel<T>, String> {
     let names: Vec<String> = (0..spec.nparams).map(pname).collect();
     let mut b = SeparableModelBuilder::<T>::new(names);
@@ -223,43 +250,50 @@ pub fn build_separable<T: Sc>(
         match fam.arity() {
             0 => {
                 let c = ctl.clone();
+                let rs = row_scale.clone();
                 b = b.invariant_function(move |x: &DVector<T>| {
-                    closure_body(&c, CallKind::Func(j), fam, What::F, x, &[])
+                    closure_body(&c, CallKind::Func(j), fam, What::F, x, &[], &rs)
                 });
             }
             1 => {
                 let c = ctl.clone();
+                let rs = row_scale.clone();
                 b = b.function(fnames.clone(), move |x: &DVector<T>, a: T| {
-                    closure_body(&c, CallKind::Func(j), fam, What::F, x, &[a])
+                    closure_body(&c, CallKind::Func(j), fam, What::F, x, &[a], &rs)
                 });
                 for (l, k) in f.params.iter().enumerate() {
                     let c = ctl.clone();
+                let rs = row_scale.clone();
                     let k = *k;
                     b = b.partial_deriv(pname(k), move |x: &DVector<T>, a: T| {
-                        closure_body(&c, CallKind::FuncDeriv(j, k), fam, What::D(l), x, &[a])
+                        closure_body(&c, CallKind::FuncDeriv(j, k), fam, What::D(l), x, &[a], &rs)
                     });
                 }
             }
             2 => {
                 let c = ctl.clone();
+                let rs = row_scale.clone();
                 b = b.function(fnames.clone(), move |x: &DVector<T>, a: T, bb: T| {
-                    closure_body(&c, CallKind::Func(j), fam, What::F, x, &[a, bb])
+                    closure_body(&c, CallKind::Func(j), fam, What::F, x, &[a, bb], &rs)
                 });
                 for (l, k) in f.params.iter().enumerate() {
                     let c = ctl.clone();
+                let rs = row_scale.clone();
                     let k = *k;
                     b = b.partial_deriv(pname(k), move |x: &DVector<T>, a: T, bb: T| {
-                        closure_body(&c, CallKind::FuncDeriv(j, k), fam, What::D(l), x, &[a, bb])
+                        closure_body(&c, CallKind::FuncDeriv(j, k), fam, What::D(l), x, &[a, bb], &rs)
                     });
                 }
             }
             3 => {
                 let c = ctl.clone();
+                let rs = row_scale.clone();
                 b = b.function(fnames.clone(), move |x: &DVector<T>, a: T, bb: T, cc: T| {
-                    closure_body(&c, CallKind::Func(j), fam, What::F, x, &[a, bb, cc])
+                    closure_body(&c, CallKind::Func(j), fam, What::F, x, &[a, bb, cc], &rs)
                 });
                 for (l, k) in f.params.iter().enumerate() {
                     let c = ctl.clone();
+                let rs = row_scale.clone();
                     let k = *k;
                     b = b.partial_deriv(pname(k), move |x: &DVector<T>, a: T, bb: T, cc: T| {
                         closure_body(
@@ -269,6 +303,7 @@ pub fn build_separable<T: Sc>(
                             What::D(l),
                             x,
                             &[a, bb, cc],
+                            &rs,
                         )
                     });
                 }
